@@ -13,6 +13,27 @@ use crate::{
     rng::Rng,
 };
 
+/// Runs `f` on its own thread; `None` if it has not finished after `secs` seconds (the thread is
+/// then left spinning until the process exits). After three timeouts nothing is started any more.
+fn with_timeout<T: Send + 'static>(secs: u64, f: impl FnOnce() -> T + Send + 'static) -> Option<Result<T, String>> {
+    use std::sync::atomic::{AtomicUsize, Ordering};
+    static TIMEOUTS: AtomicUsize = AtomicUsize::new(0);
+    if TIMEOUTS.load(Ordering::Relaxed) >= 3 {
+        return Some(Err("SKIPPED".to_owned()));
+    }
+    let (tx, rx) = std::sync::mpsc::channel();
+    std::thread::spawn(move || {
+        let _ = tx.send(guarded(f));
+    });
+    match rx.recv_timeout(std::time::Duration::from_secs(secs)) {
+        Ok(r) => Some(r),
+        Err(_) => {
+            TIMEOUTS.fetch_add(1, Ordering::Relaxed);
+            None
+        }
+    }
+}
+
 fn show_list(l: &[u64]) -> String {
     if l.is_empty() {
         "e".to_owned()
@@ -127,13 +148,21 @@ fn fac_case(run: &mut Run, id: &str, total: i32, initial: u8, upper: i32, mode: 
     };
     let pats = patterns.to_vec();
     let up = if upper == total { None } else { Some(upper) };
-    // a watchdog is not needed: the random variants draw from the real generator with a free
-    // column guaranteed by the `assert!`, the gathered variant is proved to terminate
-    let out = match guarded(move || find_available_column(total, initial, up, gathered, seed, &pats)) {
-        Ok(c) => format!("found:{c}"),
-        Err(_) => "PANIC".to_owned(),
+    let out = match with_timeout(10, move || find_available_column(total, initial, up, gathered, seed, &pats)) {
+        Some(Ok(c)) => format!("found:{c}"),
+        Some(Err(e)) if e == "SKIPPED" => "SKIPPED-after-3-hangs".to_owned(),
+        Some(Err(_)) => "PANIC".to_owned(),
+        None => "HANG".to_owned(),
     };
-    if (out == "PANIC") != expect_panic {
+    if out == "HANG" {
+        run.fail(
+            "oracle:hang",
+            "",
+            id,
+            format!("find_available_column did not return within 10 s: total={total} rs={rs} initial={initial} upper={upper} mode={mode} seed={seed} patterns={patterns:?}"),
+            format!("mania::verif::find_available_column({total}, {initial}, {up:?}, {gathered:?}, {seed}, {patterns:?})"),
+        );
+    } else if !out.starts_with("SKIPPED") && (out == "PANIC") != expect_panic {
         run.fail(
             "oracle:find-available-column",
             "",
@@ -153,10 +182,21 @@ fn fac_case(run: &mut Run, id: &str, total: i32, initial: u8, upper: i32, mode: 
 }
 
 fn ban_case(run: &mut Run, id: &str, start: i64, end: i64) {
-    let out = match guarded(|| n_bananas(start as f64, end as f64)) {
-        Ok(n) => n.to_string(),
-        Err(_) => "PANIC".to_owned(),
+    let out = match with_timeout(10, move || n_bananas(start as f64, end as f64)) {
+        Some(Ok(n)) => n.to_string(),
+        Some(Err(e)) if e == "SKIPPED" => "SKIPPED-after-3-hangs".to_owned(),
+        Some(Err(_)) => "PANIC".to_owned(),
+        None => "HANG".to_owned(),
     };
+    if out == "HANG" {
+        run.fail(
+            "oracle:hang",
+            "",
+            id,
+            format!("BananaShower::new({start}, {end}) did not return within 10 s"),
+            format!("catch map with the spinner `256,192,{start},12,0,{end}` (catch::verif::n_bananas({start}.0, {end}.0))"),
+        );
+    }
     run.count("model:BAN lines");
     if start >= 16_777_216 || end >= 16_777_216 {
         run.count("model:BAN t>=2^24");
